@@ -184,7 +184,7 @@ def macro_cases(tier: str):
 
 @st.composite
 def with_cases(draw):
-    r = draw(st.randoms(use_true_random=False))
+    r = core.rng(draw)
     names = ["a", "b", "c"]
 
     def items(depth):
